@@ -164,10 +164,23 @@ package utils
 //@   ensures values_not_shared_with_source: forall k string :: in(k, dst) && !old(in(k, dst)) && len(dst[k]) > 0 ==> fresh(backing(dst[k]))
 //@   ensures keys: forall k string :: in(k, dst) == (old(in(k, dst)) || in(k, src))
 
-// DumpHTTPRequest serialises a copy of the request's exported fields with encoding/json (outside oxy): assumed to read only.
+// DumpHTTPRequest serialises a view of the request's exported fields with encoding/json (outside oxy; json.Marshal is
+// assumed to read only). That oxy's own part, Clone, leaves the request alone is proved.
+//@ extern encoding/json.Marshal
+//@   params v
+//@   modifies nothing
+//@   nopanic
+//@ func Clone
+//@   props C06 C07 C15 C20
+//@   nopanic
+//@   modifies nothing
+//@   ensures view_of_the_request: (r == nil ==> result == nil) && (r != nil ==> result != nil && fresh(result) && result.Header == r.Header && result.URL == r.URL && result.Method == r.Method && result.ContentLength == r.ContentLength)
+//@ func (*SerializableHTTPRequest).ToJSON
+//@   props C06 C07 C15 C20
+//@   nopanic
+//@   modifies nothing
 //@ func DumpHTTPRequest
 //@   props C06 C07 C15 C20
-//@   trusted
 //@   nopanic
 //@   modifies nothing
 
